@@ -29,7 +29,7 @@ def _sources(r):
 def _hash(r):
     h = hashlib.sha256()
     for p in _sources(r) + [os.path.join(r, 'setup.py')]:
-        h.update(p.encode())
+        h.update(os.path.relpath(p, r).encode())
         with open(p, 'rb') as f:
             h.update(f.read())
     return h.hexdigest()
@@ -75,6 +75,20 @@ def ensure_built():
             with open(stamp, 'w') as f:
                 f.write(want)
     return r
+
+
+def adopt(dst, src='/repo'):
+    """dst is a fresh rsync copy of src (including its compiled .so): carry src's build stamp over, so that dst is only
+    rebuilt if its .pyx sources differ from what src's extensions were built from (the stamp is a content hash)."""
+    cache = os.path.join(VERIF, '.cache')
+    ts = hashlib.sha1(os.path.abspath(src).encode()).hexdigest()[:10]
+    td = hashlib.sha1(os.path.abspath(dst).encode()).hexdigest()[:10]
+    sp = os.path.join(cache, 'build-%s.stamp' % ts)
+    if os.path.exists(sp):
+        # the stamp hashes file *paths* too: recompute for dst from src's content equality
+        if _hash(src) == open(sp).read().strip().split(':')[-1]:
+            with open(os.path.join(cache, 'build-%s.stamp' % td), 'w') as f:
+                f.write(open(sp).read())
 
 
 if __name__ == '__main__':
